@@ -91,6 +91,11 @@ def _kwargs_variants(cls: type[service.UDSRequest]) -> list[dict[str, Any]]:
             base[p.name] = b"\x22\x12\x34"
             alts.append({p.name: b"\xba\x01\x02"})
             alts.append({p.name: b"\x10\x03"})
+            # raw requests that are near misses of a typed layout (what the fuzzer / identifier scanner / pdu
+            # primitive send): the row must hold the bytes that went out, whatever a parser makes of them
+            for raw in (b"\x22\x24\x14\x12", b"\x2c\x03\x01", b"\x19\x02", b"\x31\x01\xff", b"\x22",
+                        b"\x2e\xf1\x90", b"\x27\x01\x00", b"\x3e"):
+                alts.append({p.name: raw})
         elif p.name == "suppress_response":
             alts.append({p.name: True})
         elif p.name in INT_BY_NAME:
